@@ -1,6 +1,230 @@
-//! Programs using `#[ds(ascent_byods_rels::eqrel)]` (binary form: has a concurrent implementation)
-//! and their explicit-closure twins.
+//! Programs using `#[ds(ascent_byods_rels::eqrel)]` (binary form: it has a concurrent
+//! implementation, `ceqrel_ind`) and their explicit-closure twins (reference, serial).
+use ascent::Dual;
+
 use crate::gens;
 use crate::prog::ProgramDef;
+use crate::defprog;
 
-pub fn all() -> Vec<ProgramDef> { vec![] }
+// ---- 1. eqrel filled in a non-recursive stratum, read with every bound/free pattern ----------
+defprog! {
+   name: eq_access;
+   timeouts: no;
+   positive: true;
+   tags: ["c10"];
+   reference: "eq_access_ref";
+   rels: {
+      relation pair(u32, u32) [input];
+      relation node(u32) [input];
+      relation cand(u32, u32) [input];
+      relation link(u32, u32) [input];
+      relation #[ds(ascent_byods_rels::eqrel)] eq(u32, u32) [noio];
+      relation r_ff(u32, u32) [];
+      relation r_bf(u32, u32) [];
+      relation r_fb(u32, u32) [];
+      relation r_bb(u32, u32) [];
+      relation r_refl(u32) [];
+      relation r_const(u32) [];
+      relation r_const2(u32) [];
+      relation r_join(u32, u32) [];
+      relation r_join2(u32, u32) [];
+      relation r_two(u32, u32, u32) [];
+   }
+   gens: [("random", gens::random), ("small", gens::small)];
+   rules: {
+      eq(x, y) <-- pair(x, y);
+      r_ff(x, y) <-- eq(x, y);
+      r_bf(x, y) <-- node(x), eq(x, y);
+      r_fb(x, y) <-- node(y), eq(x, y);
+      r_bb(x, y) <-- cand(x, y), eq(x, y2), if y == y2;
+      r_refl(x) <-- eq(x, x);
+      r_const(y) <-- eq(1, y);
+      r_const2(x) <-- eq(x, 2);
+      r_join(x, z) <-- eq(x, y), link(y, z);
+      r_join2(z, y) <-- link(z, x), eq(x, y);
+      r_two(x, y, z) <-- eq(x, y), eq(y, z), node(z), if x != z;
+   }
+}
+
+defprog! {
+   name: eq_access_ref;
+   timeouts: no;
+   positive: true;
+   tags: ["ref"];
+   rels: {
+      relation pair(u32, u32) [input];
+      relation node(u32) [input];
+      relation cand(u32, u32) [input];
+      relation link(u32, u32) [input];
+      relation eq(u32, u32) [];
+      relation r_ff(u32, u32) [];
+      relation r_bf(u32, u32) [];
+      relation r_fb(u32, u32) [];
+      relation r_bb(u32, u32) [];
+      relation r_refl(u32) [];
+      relation r_const(u32) [];
+      relation r_const2(u32) [];
+      relation r_join(u32, u32) [];
+      relation r_join2(u32, u32) [];
+      relation r_two(u32, u32, u32) [];
+   }
+   gens: [("random", gens::random)];
+   rules: {
+      eq(x, x), eq(y, y), eq(y, x) <-- eq(x, y);
+      eq(x, z) <-- eq(x, y), eq(y, z);
+      eq(x, y) <-- pair(x, y);
+      r_ff(x, y) <-- eq(x, y);
+      r_bf(x, y) <-- node(x), eq(x, y);
+      r_fb(x, y) <-- node(y), eq(x, y);
+      r_bb(x, y) <-- cand(x, y), eq(x, y2), if y == y2;
+      r_refl(x) <-- eq(x, x);
+      r_const(y) <-- eq(1, y);
+      r_const2(x) <-- eq(x, 2);
+      r_join(x, z) <-- eq(x, y), link(y, z);
+      r_join2(z, y) <-- link(z, x), eq(x, y);
+      r_two(x, y, z) <-- eq(x, y), eq(y, z), node(z), if x != z;
+   }
+}
+
+// ---- 2. eqrel in head position of a recursive stratum: facts arrive over many iterations,
+//         from several rules, classes get merged late; readers inside the same stratum ---------
+defprog! {
+   name: eq_recursive;
+   timeouts: no;
+   positive: true;
+   tags: ["c10"];
+   reference: "eq_recursive_ref";
+   rels: {
+      relation pair(u32, u32) [input];
+      relation f(u32, u32) [input];
+      relation start(u32) [input];
+      relation color(u32, u32) [input];
+      relation #[ds(ascent_byods_rels::eqrel)] eq(u32, u32) [noio];
+      relation reach(u32) [];
+      relation eq_out(u32, u32) [];
+      relation same(u32, u32) [];
+   }
+   gens: [("random", gens::random), ("small", gens::small)];
+   rules: {
+      eq(x, y) <-- pair(x, y);
+      eq(a, b) <-- eq(x, y), f(x, a), f(y, b);
+      reach(x) <-- start(x);
+      reach(y) <-- reach(x), eq(x, y);
+      eq(x, y) <-- reach(x), reach(y), color(x, c), color(y, c);
+      same(x, y) <-- f(x, y), eq(y, x2), if x == x2;
+      eq(x, z) <-- same(x, y), f(y, z);
+      eq_out(x, y) <-- eq(x, y);
+   }
+}
+
+defprog! {
+   name: eq_recursive_ref;
+   timeouts: no;
+   positive: true;
+   tags: ["ref"];
+   rels: {
+      relation pair(u32, u32) [input];
+      relation f(u32, u32) [input];
+      relation start(u32) [input];
+      relation color(u32, u32) [input];
+      relation eq(u32, u32) [];
+      relation reach(u32) [];
+      relation eq_out(u32, u32) [];
+      relation same(u32, u32) [];
+   }
+   gens: [("random", gens::random)];
+   rules: {
+      eq(x, x), eq(y, y), eq(y, x) <-- eq(x, y);
+      eq(x, z) <-- eq(x, y), eq(y, z);
+      eq(x, y) <-- pair(x, y);
+      eq(a, b) <-- eq(x, y), f(x, a), f(y, b);
+      reach(x) <-- start(x);
+      reach(y) <-- reach(x), eq(x, y);
+      eq(x, y) <-- reach(x), reach(y), color(x, c), color(y, c);
+      same(x, y) <-- f(x, y), eq(y, x2), if x == x2;
+      eq(x, z) <-- same(x, y), f(y, z);
+      eq_out(x, y) <-- eq(x, y);
+   }
+}
+
+// ---- 3. two eqrel relations feeding each other and a lattice; eqrel read in a later stratum
+//         under negation / aggregation ------------------------------------------------------
+defprog! {
+   name: eq_mixed;
+   timeouts: no;
+   positive: false;
+   tags: ["c10"];
+   reference: "eq_mixed_ref";
+   rels: {
+      relation pair(u32, u32) [input];
+      relation pair2(u32, u32) [input];
+      relation node(u32) [input];
+      relation #[ds(ascent_byods_rels::eqrel)] eq1(u32, u32) [noio];
+      relation #[ds(ascent_byods_rels::eqrel)] eq2(u32, u32) [noio];
+      lattice label(u32, Dual<u32>) [];
+      relation eq1m(u32, u32) [];
+      relation not_eq(u32, u32) [];
+      relation class_size(u32, usize) [];
+      relation both(u32, u32) [];
+   }
+   gens: [("random", gens::random), ("small", gens::small)];
+   rules: {
+      eq1(x, y) <-- pair(x, y);
+      eq2(x, y) <-- pair2(x, y);
+      eq2(x, y) <-- eq1(x, y), node(x);
+      eq1(x, y) <-- eq2(x, y), node(y);
+      label(x, Dual(*x)) <-- node(x);
+      label(y, l.clone()) <-- eq1(x, y), label(x, l);
+      both(x, y) <-- eq1(x, y), eq2(x, y2), if y == y2;
+      eq1m(x, y) <-- eq1(x, y);
+      not_eq(x, y) <-- node(x), node(y), !eq1m(x, y);
+      class_size(x, n) <-- node(x), agg n = ascent::aggregators::count() in eq2(x, _);
+   }
+}
+
+defprog! {
+   name: eq_mixed_ref;
+   timeouts: no;
+   positive: false;
+   tags: ["ref"];
+   rels: {
+      relation pair(u32, u32) [input];
+      relation pair2(u32, u32) [input];
+      relation node(u32) [input];
+      relation eq1(u32, u32) [];
+      relation eq2(u32, u32) [];
+      lattice label(u32, Dual<u32>) [];
+      relation eq1m(u32, u32) [];
+      relation not_eq(u32, u32) [];
+      relation class_size(u32, usize) [];
+      relation both(u32, u32) [];
+   }
+   gens: [("random", gens::random)];
+   rules: {
+      eq1(x, x), eq1(y, y), eq1(y, x) <-- eq1(x, y);
+      eq1(x, z) <-- eq1(x, y), eq1(y, z);
+      eq2(x, x), eq2(y, y), eq2(y, x) <-- eq2(x, y);
+      eq2(x, z) <-- eq2(x, y), eq2(y, z);
+      eq1(x, y) <-- pair(x, y);
+      eq2(x, y) <-- pair2(x, y);
+      eq2(x, y) <-- eq1(x, y), node(x);
+      eq1(x, y) <-- eq2(x, y), node(y);
+      label(x, Dual(*x)) <-- node(x);
+      label(y, l.clone()) <-- eq1(x, y), label(x, l);
+      both(x, y) <-- eq1(x, y), eq2(x, y2), if y == y2;
+      eq1m(x, y) <-- eq1(x, y);
+      not_eq(x, y) <-- node(x), node(y), !eq1m(x, y);
+      class_size(x, n) <-- node(x), agg n = ascent::aggregators::count() in eq2(x, _);
+   }
+}
+
+pub fn all() -> Vec<ProgramDef> {
+   vec![
+      eq_access::def(),
+      eq_access_ref::def(),
+      eq_recursive::def(),
+      eq_recursive_ref::def(),
+      eq_mixed::def(),
+      eq_mixed_ref::def(),
+   ]
+}
